@@ -267,6 +267,8 @@ func handle(dir string, req Req) Resp {
 		return handleConfig(dir, req)
 	case "ir":
 		return handleIR(dir, req)
+	case "probe":
+		return handleProbe(dir)
 	}
 	return Resp{Outs: []Out{{St: "harness-error", Err: "unknown op " + req.Op}}}
 }
@@ -330,6 +332,31 @@ func handleLoad(dir string, req Req) Resp {
 		}
 	}
 	return resp
+}
+
+// handleProbe loads the witness document of every special IR shape with the
+// real parser and reports which shapes the parsers of this tree really emit.
+func handleProbe(dir string) Resp {
+	var outs []Out
+	for _, name := range specialNames() {
+		def := specialDefs[name]
+		in := filepath.Join(dir, fmt.Sprintf("probe%d-%s", curRequest.Load(), name))
+		mustWrite(inputFile(def.Format, in), []byte(def.Doc))
+		input := inputFor(def.Format, in)
+		o := guarded(name, func() (int, error) {
+			schemas, err := input.LoadSchemas(context.Background())
+			if err != nil {
+				return 0, err
+			}
+			if anyType(schemas, def.Has) {
+				return 1, nil
+			}
+			return 0, nil
+		})
+		os.RemoveAll(in)
+		outs = append(outs, o)
+	}
+	return Resp{Outs: outs}
 }
 
 // handleYAML feeds one configuration document to its loader.
